@@ -179,7 +179,14 @@ fn join_case(front: Front, reg: Reg, dl_fixed: Option<u8>, rng: &mut Prng, col: 
         // now and then the application joins with other credentials than in the attempt before
         // (whether that one failed or succeeded): the request carries what is configured now
         if round > 0 && dl_fixed.is_none() && rng.chance(1, 4) {
+            let before = creds.clone();
             creds = default_creds(rng);
+            // (every other change is a new root key for the same device: DevEUI and JoinEUI stay)
+            if rng.bool() {
+                creds.dev_eui = before.dev_eui;
+                creds.app_eui = before.app_eui;
+                col.event("root_key_changed_between_attempts");
+            }
             dev.creds = creds.clone();
             col.event("credentials_changed_between_attempts");
         }
